@@ -29,6 +29,8 @@ type DataOpts struct {
 	// CallerMode: only unions the writer supports ([null,T] and [T,null]); logical types on int/long
 	CallerMode bool
 	NoMulti    bool
+	// NoZeroWidth: array items and the top-level record occupy at least one byte on the wire
+	NoZeroWidth bool
 }
 
 func GenDataSchema(r *rand.Rand, o DataOpts) *DataSchema {
@@ -37,6 +39,9 @@ func GenDataSchema(r *rand.Rand, o DataOpts) *DataSchema {
 	}
 	ds := &DataSchema{Hints: map[*refavro.Schema]*Hint{}}
 	ds.S = ds.record(r, o, 0)
+	if o.NoZeroWidth && refavro.ZeroWidth(ds.S) {
+		ds.S.Fields = append(ds.S.Fields, refavro.Field{Name: "fz", Type: &refavro.Schema{Type: "boolean"}})
+	}
 	return ds
 }
 
@@ -104,7 +109,11 @@ func (ds *DataSchema) gen(r *rand.Rand, o DataOpts, depth int, inUnion bool) *re
 	case 0, 1:
 		return ds.record(r, o, depth)
 	case 2, 3:
-		return &refavro.Schema{Type: "array", ObjectForm: true, Items: ds.gen(r, o, depth+1, false)}
+		items := ds.gen(r, o, depth+1, false)
+		for o.NoZeroWidth && refavro.ZeroWidth(items) {
+			items = ds.gen(r, o, depth+1, false)
+		}
+		return &refavro.Schema{Type: "array", ObjectForm: true, Items: items}
 	case 4, 5:
 		return &refavro.Schema{Type: "map", ObjectForm: true, Values: ds.gen(r, o, depth+1, false)}
 	default:
